@@ -602,3 +602,249 @@ Proof.
     assert (In e (of_thread (e_tid e) (delivs tr))) as Hi by (apply filter_In; split; [exact He|apply Nat.eqb_refl]).
     destruct (of_thread (e_tid e) (delivs tr)); [exact Hi|discriminate].
 Qed.
+
+(* ------------------------------------------------------------------ Part 5: sequential schedules realise every accepted trace *)
+Lemma run_app sk quota : forall a b s, run sk quota s (a ++ b) = run sk quota (run sk quota s a) b.
+Proof. induction a as [|t a IH]; intros b s; cbn [run app]; [reflexivity|]. destruct (step sk quota s t); apply IH. Qed.
+Lemma run_cons sk quota s t r s1 : step sk quota s t = Some s1 -> run sk quota s (t :: r) = run sk quota s1 r.
+Proof. intros H. cbn [run]. rewrite H. reflexivity. Qed.
+Definition owns (s : state) (t : nat) (hl hm : bool) : Prop :=
+  owner s L = (if hl then Some t else None) /\ owner s M = (if hm then Some t else None).
+Definition emits (p : phase) : bool := match p with P0 | P1 => true | _ => false end.
+
+Section Solo.
+Variable sk : list instr.
+Variable g : mutex.
+Variable quota : nat -> nat.
+Hypothesis Hshape : shape g sk = true.
+
+Lemma fold_not_err rest p : fold_left (next g) rest p = P3 -> p <> PErr.
+Proof. intros H E. rewrite E, fold_err in H. discriminate. Qed.
+
+Lemma solo_suffix t : forall rest pre s hl hm,
+  sk = pre ++ rest -> pc (th s t) = length pre -> wph (th s t) = W0 -> idx (th s t) < quota t ->
+  owns s t hl hm -> wf_from rest hl hm = true ->
+  fold_left (next g) rest (phase_at g sk (length pre)) = P3 ->
+  let p := phase_at g sk (length pre) in
+  let s' := run sk quota s (repeat t (length rest + (if emits p then 3 else 0))) in
+  pc (th s' t) = length sk /\ wph (th s' t) = W0 /\ idx (th s' t) = idx (th s t) /\ owns s' t false false /\
+  (forall t', t' <> t -> th s' t' = th s t') /\
+  (if emits p then log s' = log s ++ [(t, idx (th s t), count s)] /\ count s' = S (count s) /\
+                   evs s' = evs s ++ [EEnter t (idx (th s t)); EDeliver t (idx (th s t)) (count s)]
+   else log s' = log s /\ count s' = count s /\ evs s' = evs s).
+Proof.
+  induction rest as [|i rest IH]; intros pre s hl hm Esk Hpc Hw Hlt Hown Hwf Hfold p s'.
+  - subst p s'. cbn [fold_left] in Hfold. rewrite Hfold. cbn [emits length Nat.add repeat run].
+    cbn in Hwf. apply andb_prop in Hwf as [H1 H2]. destruct hl, hm; try discriminate.
+    rewrite Esk, app_nil_r. destruct Hown as [O1 O2]. repeat split; auto.
+  - assert (Hnth : nth_error sk (pc (th s t)) = Some i).
+    { rewrite Hpc, Esk, nth_error_app2 by lia. rewrite Nat.sub_diag. reflexivity. }
+    assert (Esk' : sk = (pre ++ [i]) ++ rest) by (rewrite <- app_assoc; exact Esk).
+    assert (Hlen : length (pre ++ [i]) = S (length pre)) by (rewrite app_length; cbn; lia).
+    pose proof (phase_S g sk _ _ Hnth) as HS. rewrite Hpc in HS.
+    cbn [fold_left] in Hfold. rewrite <- HS in Hfold.
+    pose proof (fold_not_err _ _ Hfold) as Hne. rewrite HS in Hne.
+    pose proof Hfold as Hfold'. rewrite HS in Hfold'.
+    assert (Hq : Nat.leb (quota t) (idx (th s t)) = false) by (apply Nat.leb_gt; exact Hlt).
+    destruct Hown as [HoL HoM].
+    (* a plain step: advances pc, keeps the handler state *)
+    assert (Plain : forall (o' : mutex -> option nat) (acq' : list (mutex * nat * nat)),
+      step sk quota s t = Some {| th := upd (th s) t (mk_t (S (pc (th s t))) W0 (idx (th s t))); owner := o'; count := count s;
+                                  log := log s; acq := acq'; evs := evs s |} ->
+      forall (hl' hm' : bool), o' L = (if hl' then Some t else None) -> o' M = (if hm' then Some t else None) ->
+      wf_from rest hl' hm' = true -> emits (next g p i) = emits p ->
+      let s' := run sk quota s (repeat t (length (i :: rest) + (if emits p then 3 else 0))) in
+      pc (th s' t) = length sk /\ wph (th s' t) = W0 /\ idx (th s' t) = idx (th s t) /\ owns s' t false false /\
+      (forall t', t' <> t -> th s' t' = th s t') /\
+      (if emits p then log s' = log s ++ [(t, idx (th s t), count s)] /\ count s' = S (count s) /\
+                       evs s' = evs s ++ [EEnter t (idx (th s t)); EDeliver t (idx (th s t)) (count s)]
+       else log s' = log s /\ count s' = count s /\ evs s' = evs s)).
+    { intros o' acq' Hstep hl' hm' H1 H2 Hwf' Hem s1. subst s1. cbn [length Nat.add repeat]. rewrite (run_cons _ _ _ _ _ _ Hstep).
+      match goal with |- context [run sk quota ?S1 _] => set (s1 := S1) end.
+      specialize (IH (pre ++ [i]) s1 hl' hm' Esk').
+      rewrite Hlen, HS in IH. cbv zeta in IH. fold p in IH. rewrite Hem in IH.
+      assert (T1 : th s1 t = mk_t (S (pc (th s t))) W0 (idx (th s t))) by (unfold s1; cbn [th]; apply upd_same).
+      rewrite T1 in IH. cbn [pc wph idx mk_t] in IH.
+      change (log s1) with (log s) in IH. change (count s1) with (count s) in IH. change (evs s1) with (evs s) in IH.
+      destruct (IH ltac:(lia) eq_refl Hlt (conj H1 H2) Hwf' Hfold') as (A & B & C & D & E & F).
+      split; [exact A|]. split; [exact B|]. split; [exact C|]. split; [exact D|]. split; [|exact F].
+      intros t' Ht'. rewrite (E t' Ht'). unfold s1. cbn [th]. apply upd_other. exact Ht'. }
+    subst p s'. set (p := phase_at g sk (length pre)) in *.
+    destruct i as [m|m| |].
+    + (* Lock m *)
+      assert (Hfree : owner s m = None /\ (if mutex_eqb m L then negb hl else negb hm) = true /\
+                      wf_from rest (if mutex_eqb m L then true else hl) (if mutex_eqb m L then hm else true) = true).
+      { destruct m; cbn [wf_from] in Hwf; apply andb_prop in Hwf as [H1 H2]; cbn [mutex_eqb].
+        - destruct hl; [discriminate|]. repeat split; assumption.
+        - destruct hm; [discriminate|]. repeat split; assumption. }
+      destruct Hfree as (Ho & _ & Hwf').
+      eapply Plain with (o' := updm (owner s) m (Some t)) (acq' := acq s ++ [(m, t, idx (th s t))]); [| | |exact Hwf'|].
+      * unfold step. rewrite Hq, Hnth, Ho. reflexivity.
+      * destruct m; cbn [mutex_eqb]; [apply updm_same|rewrite updm_other by discriminate; exact HoL].
+      * destruct m; cbn [mutex_eqb]; [rewrite updm_other by discriminate; exact HoM|apply updm_same].
+      * cbn [next] in *. destruct (mutex_eqb m g); [|reflexivity]. destruct p; try reflexivity; congruence.
+    + (* Unlock m *)
+      assert (Hheld : owner s m = Some t /\
+                      wf_from rest (if mutex_eqb m L then false else hl) (if mutex_eqb m L then hm else false) = true).
+      { destruct m; cbn [wf_from] in Hwf; apply andb_prop in Hwf as [H1 H2]; cbn [mutex_eqb].
+        - destruct hl; [|discriminate]. split; assumption.
+        - destruct hm; [|discriminate]. split; assumption. }
+      destruct Hheld as (Ho & Hwf').
+      eapply Plain with (o' := updm (owner s) m None) (acq' := acq s); [| | |exact Hwf'|].
+      * unfold step. rewrite Hq, Hnth, Ho, Nat.eqb_refl. reflexivity.
+      * destruct m; cbn [mutex_eqb]; [apply updm_same|rewrite updm_other by discriminate; exact HoL].
+      * destruct m; cbn [mutex_eqb]; [rewrite updm_other by discriminate; exact HoM|apply updm_same].
+      * cbn [next] in *. destruct (mutex_eqb m g); [|reflexivity]. destruct p; try reflexivity; congruence.
+    + (* Work: four steps *)
+      assert (Hp1 : p = P1) by (apply (work_phase g); exact Hne).
+      rewrite Hp1 in *. cbn [emits]. cbn [next] in Hfold, HS.
+      replace (length (Work :: rest) + 3) with (4 + (length rest + 0)) by (cbn; lia).
+      cbn [repeat Nat.add].
+      set (ts := th s t) in *.
+      assert (S1 : step sk quota s t = Some {| th := upd (th s) t (mk_t (pc ts) W1 (idx ts)); owner := owner s; count := count s;
+                      log := log s; acq := acq s; evs := evs s ++ [EEnter t (idx ts)] |}).
+      { unfold step. fold ts. rewrite Hq, Hnth, Hw. reflexivity. }
+      rewrite (run_cons _ _ _ _ _ _ S1). match goal with |- context [run sk quota ?X _] => set (s1 := X) end.
+      assert (T1 : th s1 t = mk_t (pc ts) W1 (idx ts)) by (unfold s1; cbn [th]; apply upd_same).
+      assert (S2 : step sk quota s1 t = Some {| th := upd (th s1) t (mk_t (pc ts) (W2 (count s)) (idx ts)); owner := owner s; count := count s;
+                      log := log s; acq := acq s; evs := evs s ++ [EEnter t (idx ts)] |}).
+      { unfold step. rewrite T1. cbn [pc wph idx mk_t]. rewrite Hq, Hnth. reflexivity. }
+      rewrite (run_cons _ _ _ _ _ _ S2). match goal with |- context [run sk quota ?X _] => set (s2 := X) end.
+      assert (T2 : th s2 t = mk_t (pc ts) (W2 (count s)) (idx ts)) by (unfold s2; cbn [th]; apply upd_same).
+      assert (S3 : step sk quota s2 t = Some {| th := upd (th s2) t (mk_t (pc ts) (W3 (count s)) (idx ts)); owner := owner s; count := S (count s);
+                      log := log s; acq := acq s; evs := evs s ++ [EEnter t (idx ts)] |}).
+      { unfold step. rewrite T2. cbn [pc wph idx mk_t]. rewrite Hq, Hnth. reflexivity. }
+      rewrite (run_cons _ _ _ _ _ _ S3). match goal with |- context [run sk quota ?X _] => set (s3 := X) end.
+      assert (T3 : th s3 t = mk_t (pc ts) (W3 (count s)) (idx ts)) by (unfold s3; cbn [th]; apply upd_same).
+      assert (S4 : step sk quota s3 t = Some {| th := upd (th s3) t (mk_t (S (pc ts)) W0 (idx ts)); owner := owner s; count := S (count s);
+                      log := log s ++ [(t, idx ts, count s)]; acq := acq s;
+                      evs := (evs s ++ [EEnter t (idx ts)]) ++ [EDeliver t (idx ts) (count s)] |}).
+      { unfold step. rewrite T3. cbn [pc wph idx mk_t]. rewrite Hq, Hnth. reflexivity. }
+      rewrite (run_cons _ _ _ _ _ _ S4). match goal with |- context [run sk quota ?X _] => set (s4 := X) end.
+      assert (T4 : th s4 t = mk_t (S (pc ts)) W0 (idx ts)) by (unfold s4; cbn [th]; apply upd_same).
+      specialize (IH (pre ++ [Work]) s4 hl hm Esk'). rewrite Hlen, HS in IH. cbv zeta in IH. cbn [emits] in IH.
+      rewrite T4 in IH. cbn [pc wph idx mk_t] in IH.
+      destruct (IH ltac:(lia) eq_refl Hlt (conj HoL HoM) Hwf Hfold') as (A & B & C & D & E & F1 & F2 & F3).
+      split; [exact A|]. split; [exact B|]. split; [exact C|]. split; [exact D|]. split; [|split; [|split]].
+      * intros t' Ht'. rewrite (E t' Ht'). unfold s4, s3, s2, s1. cbn [th]. rewrite !upd_other by exact Ht'. reflexivity.
+      * rewrite F1. reflexivity.
+      * rewrite F2. reflexivity.
+      * rewrite F3. unfold s4. cbn [evs]. rewrite <- app_assoc. reflexivity.
+    + (* Other *)
+      eapply Plain with (o' := owner s) (acq' := acq s) (hl' := hl) (hm' := hm); try assumption; try reflexivity.
+      unfold step. rewrite Hq, Hnth. reflexivity.
+Qed.
+End Solo.
+
+Definition quiet (s : state) : Prop :=
+  (forall t, pc (th s t) = 0 /\ wph (th s t) = W0) /\ owner s L = None /\ owner s M = None.
+Lemma s0_quiet : quiet s0. Proof. repeat split. Qed.
+
+Section Realise.
+Variable sk : list instr.
+Variable g : mutex.
+Variable quota : nat -> nat.
+Variable n : nat.
+Hypothesis Hshape : shape g sk = true.
+Hypothesis Hsolo : solo_ok sk = true.
+
+Lemma shape_fold : fold_left (next g) sk P0 = P3.
+Proof. unfold shape in Hshape. destruct (fold_left (next g) sk P0); try discriminate. reflexivity. Qed.
+
+(* a thread running alone from a quiet state processes exactly one whole message and leaves a quiet state *)
+Lemma whole_message s t : quiet s -> idx (th s t) < quota t ->
+  let s' := run sk quota s (repeat t (length sk + 4)) in
+  quiet s' /\ idx (th s' t) = S (idx (th s t)) /\ (forall t', t' <> t -> th s' t' = th s t') /\
+  log s' = log s ++ [(t, idx (th s t), count s)] /\ count s' = S (count s) /\
+  evs s' = evs s ++ [EEnter t (idx (th s t)); EDeliver t (idx (th s t)) (count s)].
+Proof.
+  intros (Hq & HoL & HoM) Hlt s'. subst s'.
+  replace (length sk + 4) with ((length sk + 3) + 1) by lia. rewrite repeat_app, run_app.
+  destruct (Hq t) as [Hpc Hw].
+  pose proof (solo_suffix sk g quota t sk [] s false false eq_refl Hpc Hw Hlt (conj HoL HoM) Hsolo shape_fold) as H.
+  cbv zeta in H. cbn [length emits phase_at firstn fold_left] in H.
+  set (s1 := run sk quota s (repeat t (length sk + 3))) in *.
+  destruct H as (A & B & C & [D1 D2] & E & F1 & F2 & F3).
+  assert (St : step sk quota s1 t = Some {| th := upd (th s1) t (mk_t 0 W0 (S (idx (th s1 t)))); owner := owner s1; count := count s1;
+                                             log := log s1; acq := acq s1; evs := evs s1 |}).
+  { unfold step. replace (Nat.leb (quota t) (idx (th s1 t))) with false by (symmetry; apply Nat.leb_gt; lia).
+    replace (nth_error sk (pc (th s1 t))) with (@None instr) by (symmetry; apply nth_error_None; lia). reflexivity. }
+  cbn [repeat]. rewrite (run_cons _ _ _ _ _ _ St). unfold quiet. cbn [run th owner count log acq evs].
+  split; [|split; [|split; [|split; [|split]]]].
+  - split; [|split; assumption]. intros t'. destruct (Nat.eq_dec t' t) as [->|Hne].
+    + rewrite upd_same. split; reflexivity.
+    + rewrite upd_other by exact Hne. rewrite (E t' Hne). apply Hq.
+  - rewrite upd_same. cbn. rewrite C. reflexivity.
+  - intros t' Hne. rewrite upd_other by exact Hne. apply E. exact Hne.
+  - exact F1.
+  - exact F2.
+  - exact F3.
+Qed.
+
+Definition Rel (s : state) (a : astate) : Prop :=
+  quiet s /\ a_in a = None /\ a_cnt a = count s /\ (forall t, a_next a t = idx (th s t)).
+
+Lemma realise : forall D s a a', Rel s a -> arun quota n a (paired D) = Some a' ->
+  Rel (run sk quota s (whole_msgs sk (map fst D))) a' /\
+  evs (run sk quota s (whole_msgs sk (map fst D))) = evs s ++ paired D.
+Proof.
+  induction D as [|[[t i] sq] D IH]; intros s a a' R H.
+  - cbn in H. injection H as <-. cbn. rewrite app_nil_r. split; [exact R|reflexivity].
+  - destruct R as (Hq & Hin & Hcnt & Hnext).
+    cbn [paired flat_map app e_tid e_idx e_seq fst snd] in H. change (flat_map _ D) with (paired D) in H.
+    cbn [arun astep] in H. rewrite Hin in H.
+    destruct (Nat.ltb_spec t n) as [Htn|]; cbn [andb] in H; [|discriminate].
+    destruct (Nat.eqb_spec i (a_next a t)) as [Ei|]; cbn [andb] in H; [|discriminate].
+    destruct (Nat.ltb_spec i (quota t)) as [Hlt|]; [|discriminate].
+    cbn [a_in a_cnt a_next] in H. rewrite !Nat.eqb_refl in H. cbn [andb] in H.
+    destruct (Nat.eqb_spec sq (a_cnt a)) as [Es|]; [|discriminate].
+    rewrite Hnext in Ei. subst i.
+    destruct (whole_message s t Hq Hlt) as (Q2 & I2 & O2 & L2 & C2 & E2).
+    cbn [map fst whole_msgs flat_map]. change (flat_map _ (map fst D)) with (whole_msgs sk (map fst D)). rewrite run_app.
+    set (s2 := run sk quota s (repeat t (length sk + 4))) in *.
+    destruct (IH s2 {| a_in := None; a_cnt := S (a_cnt a); a_next := upd (a_next a) t (S (idx (th s t))) |} a') as [R' Ev'].
+    + repeat split; try apply Q2; cbn [a_in a_cnt a_next]; [congruence|].
+      intros t'. destruct (Nat.eq_dec t' t) as [->|Hne]; [rewrite upd_same; congruence|rewrite upd_other by exact Hne; rewrite (O2 t' Hne); apply Hnext].
+    + exact H.
+    + split; [exact R'|]. rewrite Ev', E2, Es, Hcnt, <- app_assoc. reflexivity.
+Qed.
+
+Lemma s0_rel : Rel s0 a0. Proof. repeat split. Qed.
+
+(* every accepted trace IS the trace of a run of the model: the sequential schedule that executes the whole messages
+   in delivery order *)
+Theorem accepted_is_model_trace_g tr : accept_conc quota n tr = true ->
+  let s := run sk quota s0 (whole_msgs sk (map fst (delivs tr))) in evs s = tr /\ finishedb n quota s = true.
+Proof.
+  intros A s. pose proof (accept_alternates quota n tr A) as Et. unfold accept_conc in A.
+  destruct (arun quota n a0 tr) as [a|] eqn:Ea; [|discriminate]. destruct (a_final_spec quota n a A) as [_ Hn].
+  rewrite Et in Ea. destruct (realise (delivs tr) s0 a0 a s0_rel Ea) as [(Hq & _ & _ & Hnext) Ev]. fold s in Hq, Hnext, Ev.
+  split; [rewrite Ev, <- Et; reflexivity|]. apply forallb_forall. intros t Ht. apply in_seq in Ht. apply Nat.eqb_eq.
+  rewrite <- Hnext. apply Hn. lia.
+Qed.
+End Realise.
+
+Lemma map_fst_serial o : map fst (serial_log o) = o.
+Proof. unfold serial_log. generalize 0. induction o as [|x o IH]; intros k; [reflexivity|]. cbn. rewrite IH. reflexivity. Qed.
+
+Theorem accepted_is_model_trace sk quota n tr : bracketed sk = true -> solo_ok sk = true ->
+  accept_conc quota n tr = true ->
+  let s := run sk quota s0 (whole_msgs sk (map fst (delivs tr))) in evs s = tr /\ finishedb n quota s = true.
+Proof. intros B So A. destruct (bracketed_guard sk B) as [g Hs]. exact (accepted_is_model_trace_g sk g quota n Hs So tr A). Qed.
+
+(* serialisability, schedule form: the sink log of ANY complete schedule is the sink log of the sequential schedule that
+   runs the whole messages one after the other in the order in which the guarding mutex was acquired *)
+Theorem serialisable_schedule sk quota n : bracketed sk = true -> solo_ok sk = true -> threads_below n quota ->
+  forall sched, let s := run sk quota s0 sched in finishedb n quota s = true ->
+  exists g, shape g sk = true /\ log (run sk quota s0 (whole_msgs sk (acq_of g (acq s)))) = log s.
+Proof.
+  intros B So Hq sched s F. destruct (serialisable sk quota n B Hq sched F) as (g & Hs & Hl). fold s in Hl.
+  exists g. split; [exact Hs|].
+  destruct (trace_accepted sk quota n B Hq sched) as (_ & Hlog & Acc). fold s in Hlog, Acc. specialize (Acc F).
+  destruct (accepted_is_model_trace sk quota n (evs s) B So Acc) as [Ev _].
+  rewrite <- Hlog in Ev.
+  assert (Eo : map fst (log s) = acq_of g (acq s)) by (rewrite Hl at 1; apply map_fst_serial).
+  rewrite Eo in Ev.
+  destruct (trace_accepted sk quota n B Hq (whole_msgs sk (acq_of g (acq s)))) as (_ & Hlog' & _).
+  rewrite Hlog', Ev. symmetry. exact Hlog.
+Qed.
